@@ -8,6 +8,7 @@ ENGINES = {
         kinds={
             1: dict(cls="corr", props=["C18"], what="resources model and implementation disagree"),
             2: dict(cls="oracle", props=["C18"], what="result differs from the arbitrary-precision / component-wise specification"),
+            3: dict(cls="known", props=["C18"], finding="C18-subelim-left-negative", what="SubEliminateNegative / SubErrorNegative keep a negative value of a type only the left operand has"),
             4: dict(cls="oracle", props=["C18"], what="an argument (or resources.Zero) was modified, or the result aliases an argument"),
             5: dict(cls="oracle", props=["C18"], what="the implementation panicked"),
         },
@@ -17,7 +18,7 @@ ENGINES = {
 PROPS = {
     "C18": dict(engines=["res"], props_file="Props/C18.v", checkers=["Oracles/ResCheck.v"],
                 coq_scan=["Base", "Generated/Quantity.v", "Oracles/ResCheck.v", "Props/C18.v"], level="proof",
-                explanation="120 Coq theorems about the executable model of resources.go / quantity.go (calculators equal the clamped exact result; every vector operation and predicate equals its component-wise definition at every key, for all key sets, all int64 values, nil and empty; results do not depend on map iteration order; parse returns number x multiplier exactly or an error). The same right-hand sides are evaluated as oracles on the results of the real code for every generated call; non-mutation and panics are observed by the harness. The multiplier table and the regexp text are re-extracted from quantity.go on every run and must equal the modelled ones (proof obligation by reflexivity).",
+                explanation="122 Coq theorems about the executable model of resources.go / quantity.go (calculators equal the clamped exact result; every vector operation and predicate equals its component-wise definition at every key, for all key sets, all int64 values, nil and empty; results do not depend on map iteration order; parse returns number x multiplier exactly or an error). The same right-hand sides are evaluated as oracles on the results of the real code for every generated call; non-mutation and panics are observed by the harness. The multiplier table and the regexp text are re-extracted from quantity.go on every run and must equal the modelled ones (proof obligation by reflexivity).",
                 manifest=dict(
                     category="proof",
                     text="Coq theorems (no axioms): addVal/subVal/mulVal of the model (Go wrap-around arithmetic and the code's own overflow tests) equal clamp of the exact sum/difference/product for all int64 operands; mulValRatio always returns an int64 and equals clamp(trunc(binary64 product)) for every value and every non-NaN ratio (canonicity of SpecFloat's rounding/product/int conversion re-proved without Flocq); for Add, Sub, AddTo, SubFrom, SubOnlyExisting, AddOnlyExisting, SubEliminateNegative, SubErrorNegative, Multiply, ComponentWiseMin(OnlyExisting), ComponentWiseMax, MergeIfNotPresent, Prune the lookup of the result at every key is the stated component-wise function of the operands' lookups (value and key set), well-formedness and int64 range are preserved; FitIn/FitInMaxUndef/FitInActual, StrictlyGreaterThan(OrEquals)(OnlyExisting), Equals, DeepEquals, EqualsOrEmpty, IsZero, MatchAny, HasNegativeValue, StrictlyGreaterThanZero equal their forall-k definitions with the documented treatment of missing types; all are invariant under permutation of the association lists (Go map order) and total on nil; parse(s, milli) = Ok v iff the trimmed string is digits+ \\s* suffix with suffix in the extracted multiplier table and v = number x multiplier (x1000 for milli without m) within int64, any other string is an error. The model is tied to the Go code by a correspondence run on every invocation (every exported function, the four calculators and parse; model result and specification oracle both compared with the implementation; arguments checked for non-mutation and non-aliasing by the harness).",
